@@ -287,7 +287,8 @@ class MPSConv2d(nn.Conv2d, MPSModule):
         v = dict(vars(self))
         # TODO: detach to be double-checked
         v['in_channels'] = self.input_features_calculator.features.detach()
-        v['out_channels'] = self.out_features_eff
+        # the share of each precision (w_theta_alpha) already accounts for pruned channels
+        v['out_channels'] = self.out_channels
         return v
 
     def get_cost(self, cost_fn: CostFn, out_shape: Dict[str, Any]) -> torch.Tensor:
